@@ -82,6 +82,15 @@ class Models(object):
             m = None
         if m is not None:
             return lambda a, k: m(*a, **k)
+        if isinstance(fn, operator.itemgetter):
+            keys = fn.__reduce__()[1]
+            if len(keys) == 1:
+                return lambda a, k: self.interp.getitem(a[0], keys[0])
+            return lambda a, k: tuple(self.interp.getitem(a[0], kk) for kk in keys)
+        if isinstance(fn, operator.attrgetter):
+            names = fn.__reduce__()[1]
+            if len(names) == 1 and "." not in names[0]:
+                return lambda a, k: self.interp.getattr(a[0], names[0])
         if isinstance(fn, types.BuiltinMethodType) or isinstance(fn, types.MethodWrapperType):
             slf = getattr(fn, "__self__", None)
             name = getattr(fn, "__name__", None)
@@ -106,7 +115,13 @@ class Models(object):
                 ok = True
             if not ok:
                 raise Undecided("no model for %r applied to symbolic arguments" % (fn,))
-        return fn(*args, **kwargs)
+        if getattr(fn, "_pyvc_model", False) or getattr(getattr(fn, "__self__", None), "_pyvc_model", False) or isinstance(fn, (types.FunctionType, types.MethodType, type)):
+            return fn(*args, **kwargs)              # harness / model code, python-level callables: not python's own machinery
+        Sym.STRICT += 1
+        try:
+            return fn(*args, **kwargs)
+        finally:
+            Sym.STRICT -= 1
 
     # ------------------------------------------------------------------ truth / bool
     def truth(self, v, label=None):
@@ -143,6 +158,12 @@ class Models(object):
             return self.seq_concat(a, b)
         if op is ast.Mult and isinstance(a, (str, list)) and isinstance(b, int):
             return a * b
+        if op is ast.Mult and isinstance(b, list) and isinstance(a, SInt):
+            a, b = b, a
+        if op is ast.Mult and isinstance(a, list) and len(a) == 1 and isinstance(a[0], str) and isinstance(b, SInt):
+            # [<constant>] * n  ==  [<constant> for _ in range(n)] : abstract sequence of that constant
+            n = b.e if self.ctx.must(b.e >= 0) else z3.If(b.e > 0, b.e, z3.IntVal(0))
+            return SSeq(n, a[0], name="const*n", kind="const")
         if op is ast.Add and (isinstance(a, str) != isinstance(b, str)) and (isinstance(a, (SInt, int)) or isinstance(b, (SInt, int))):
             raise TypeError("can only concatenate str (not \"int\") to str")
         if (a is None or b is None) and op in (ast.Add, ast.Sub, ast.Mult, ast.RShift, ast.LShift):
@@ -257,6 +278,11 @@ class Models(object):
         if isinstance(container, (list, tuple)):
             disj = []
             for x in container:
+                if _is_splice(x):
+                    if x.seq.member is None:
+                        raise Undecided("membership in a list holding an abstract run")
+                    disj.append(x.seq.member(_int(item)))
+                    continue
                 r = self.interp.compare(ast.Eq, item, x)
                 if isinstance(r, SBool):
                     disj.append(r.e)
@@ -280,6 +306,9 @@ class Models(object):
                                 return True
                     return SBool(z3.Or(*disj)) if disj else False
                 raise Undecided("symbolic key lookup")
+            if has_sym(item, 2):
+                # a tuple key with symbolic parts: membership among the (concrete) keys by component-wise equality
+                return self.contains(list(container.keys()), item)
             return item in container
         if isinstance(container, (set, frozenset)) and isinstance(item, SStr):
             return self.contains(sorted(container, key=repr), item)
@@ -977,6 +1006,14 @@ class Models(object):
             if idx.step is not None or has_sym((idx.start, idx.stop)):
                 raise Undecided("symbolic slice of a string")
             a, b = idx.start, idx.stop
+            # s[:1] / s[-1:] : the first / last character when that end of the string is known to be non-empty
+            if atoms and ((a in (None, 0) and b == 1) or (a == -1 and b is None)):
+                end = atoms[0] if b == 1 else atoms[-1]
+                base = end.u if isinstance(end, Pct) else end
+                if isinstance(end, Lit) or (isinstance(base, Val) and base.nonempty):
+                    return self.str_index(s, 0 if b == 1 else -1)
+            if not atoms and ((a in (None, 0) and b == 1) or (a == -1 and b is None)):
+                return ""
             # only slices that stay inside leading / trailing literals
             res = list(atoms)
             if a is not None and a != 0:
@@ -1087,9 +1124,16 @@ class Models(object):
 
     def _find_key(self, d, idx):
         for k in list(d.keys()):
-            if isinstance(k, (str, SStr)):
+            if isinstance(k, (str, SStr)) and isinstance(idx, (str, SStr)):
                 r = self.str_eq(idx, k)
                 if r is True or (isinstance(r, SBool) and self.ctx.branch(r.e, "key==%s" % (k if isinstance(k, str) else "<sym>"))):
+                    return k
+            elif isinstance(k, tuple) and isinstance(idx, tuple) and len(k) == len(idx):
+                r = self.compare_containers(ast.Eq, idx, k)
+                if r is True or (isinstance(r, SBool) and self.ctx.branch(r.e, "key==%r" % (k,))):
+                    return k
+            elif isinstance(idx, (SInt,)) and isinstance(k, int) and not isinstance(k, bool):
+                if self.ctx.branch(idx.e == k, "key==%d" % k):
                     return k
         return None
 
@@ -1177,6 +1221,14 @@ class Models(object):
                 self._comp_abstract = SSeq(it.length, lambda j, e=e, i0=i0: SInt(z3.substitute(e, (i0, j if isinstance(j, z3.ExprRef) else z3.IntVal(j)))),
                                            name="map(%s)" % it.name, kind="map-int")
                 return True
+            if isinstance(v, SStr) and len(v.atoms) == 1 and isinstance(v.atoms[0], IntLit):
+                # [str(g(x)) for x in seq]  ==  map(str, [g(x) for x in seq])
+                e = v.atoms[0].e
+                self.used("pointwise-comprehension-rule(map over abstract sequence)")
+                m = SSeq(it.length, lambda j, e=e, i0=i0: SInt(z3.substitute(e, (i0, j if isinstance(j, z3.ExprRef) else z3.IntVal(j)))),
+                         name="map(%s)" % it.name, kind="map-int")
+                self._comp_abstract = SSeq(it.length, m, name="map(str,%s)" % m.name, kind="intstr")
+                return True
             raise Undecided("comprehension over an abstract sequence with a non-integer element expression")
         # [x for x in <abstract int collection> if cond(x)]  ->  filtered abstract collection
         base = _as_sset(it)
@@ -1241,8 +1293,24 @@ class Models(object):
                 return slf if name == "__iadd__" else None
             slf.extend(list(self.interp.iterate(other)))
             return slf if name == "__iadd__" else None
-        if isinstance(slf, dict) and name in ("get", "setdefault", "pop", "update") and not any(isinstance(a, Sym) for a in args[:1]):
+        if isinstance(slf, dict) and name in ("get", "setdefault", "pop", "update") and not has_sym(args[:1], 2):
             return getattr(slf, name)(*args, **kwargs)
+        if isinstance(slf, dict) and name in ("get", "setdefault", "pop", "__getitem__") and args and has_sym(args[:1], 2) and not kwargs:
+            # key with symbolic parts (a symbolic string, or a tuple holding one): find the matching concrete key by
+            # branching on equality - never by python's hash
+            k = self._find_key(slf, args[0])
+            if k is not None:
+                return getattr(slf, name)(k, *args[1:])
+            if name == "get":
+                return args[1] if len(args) > 1 else None
+            if name == "pop" and len(args) > 1:
+                return args[1]
+            if name == "setdefault" and isinstance(args[0], SStr):
+                dict.__setitem__(slf, args[0], args[1] if len(args) > 1 else None)
+                return slf[args[0]]
+            if name in ("pop", "__getitem__"):
+                raise KeyError(args[0])
+            raise Undecided("dict.%s with a symbolic key" % name)
         if isinstance(slf, MSet) and name == "update" and len(args) == 1 and isinstance(args[0], SSeq) and args[0].rng is not None:
             lo, hi = args[0].rng
             slf.ranges.append((lo, hi - 1))
@@ -1344,6 +1412,12 @@ class Models(object):
             return SInt(n)
         if isinstance(x, Sym):
             raise TypeError("object of type '%s' has no len()" % _tname(x))
+        if isinstance(x, (list, tuple)) and any(_is_splice(i) for i in x):
+            n = z3.IntVal(sum(1 for i in x if not _is_splice(i)))
+            for i in x:
+                if _is_splice(i):
+                    n = n + i.seq.length
+            return SInt(n)
         if isinstance(x, (list, tuple, dict, str, set, frozenset, range, bytes)):
             return len(x)
         if hasattr(x, "_pyvc_len"):
@@ -1517,6 +1591,16 @@ class Models(object):
             m.ranges = list(it.ranges)
             m.sitems = list(it.sitems)
             return m
+        if isinstance(it, (list, tuple)) and any(_is_splice(x) for x in it):
+            rest = [x for x in it if not _is_splice(x)]
+            if has_sym(rest, 1) or any(x.seq.rng is None for x in it if _is_splice(x)):
+                raise Undecided("set() of a list holding a non-range abstract run")
+            m = MSet(rest)
+            for x in it:
+                if _is_splice(x):
+                    lo, hi = x.seq.rng
+                    m.ranges.append((lo, hi - 1))
+            return m
         if isinstance(it, SSeq) and it.kind == "strlist":
             self.used("set-of-abstract-string-sequence (cardinality: 0 / 1 <=> all elements equal / several)")
             return SSetOfSeq(it)
@@ -1533,6 +1617,8 @@ class Models(object):
             return _as_sseq(it)
         if isinstance(it, SSeq):
             return it
+        if isinstance(it, (list, tuple)):
+            return list(it)                      # structural copy (keeps abstract runs)
         return list(self.interp.iterate(it))
 
     def b_range(self, *args):
@@ -1614,6 +1700,8 @@ class Models(object):
     def b_tuple(self, it=()):
         if isinstance(it, SSeq):
             return it
+        if isinstance(it, (list, tuple)):
+            return tuple(it)                     # structural copy (keeps abstract runs)
         return tuple(self.interp.iterate(it))
 
     def b_dict(self, *args, **kw):
@@ -1676,6 +1764,10 @@ _WIT = {}
 def seq_witness(q):
     e = _WIT.get(id(q))
     return e[1] if e and e[0] is q else None
+
+
+def _is_splice(x):
+    return type(x).__name__ == "Splice" and isinstance(x, Sym)
 
 
 def _int(x):
